@@ -202,15 +202,15 @@ def run_shard(acc, shard, nshards, seed, tier):
     from vf.gen import sessions
     known = runner.known_signatures('C07')
     mins = (40, 130) if tier == 'quick' else (40, 400)
-    step = sessions.session(minutes=mins, fast=(False,), align_len=False, program=dict(busy=True), data_tfs=('3m', '5m', '15m', '30m', '1h'), min_steps=3)
-    fast = sessions.session(minutes=mins, fast=(True,), align_len=True, program=dict(busy=True), data_tfs=('3m', '5m', '15m', '30m', '1h'), min_steps=3)
-    fast_odd = sessions.session(minutes=mins, fast=(True,), align_len=False, program=dict(busy=True), data_tfs=('3m', '5m', '15m'), min_steps=3)
+    step = sessions.session(minutes=mins, fast=(False,), align_len=False, program=dict(busy=True), data_tfs=('3m', '5m', '15m', '30m', '1h'), min_steps=3, logs=(False, False, True))
+    fast = sessions.session(minutes=mins, fast=(True,), align_len=True, program=dict(busy=True), data_tfs=('3m', '5m', '15m', '30m', '1h'), min_steps=3, logs=(False, False, True))
+    fast_odd = sessions.session(minutes=mins, fast=(True,), align_len=False, program=dict(busy=True), data_tfs=('3m', '5m', '15m'), min_steps=3, logs=(False, False, True))
 
     def chk(spec):
         vios, flags, r = run_case(spec)
         nt = bool(flags & {'forming-window-after-fill', 'warmup', 'fast'})
         tfs = sorted({x['timeframe'] for x in spec['routes'] + spec['data']})
-        cl = ['sim:' + ('fast' if spec['fast'] else 'step')] + sorted(flags) + ['tfs:' + '+'.join(tfs)]
+        cl = ['sim:' + ('fast' if spec['fast'] else 'step')] + sorted(flags) + (['debug-logs'] if spec.get('logs') else []) + ['tfs:' + '+'.join(tfs)]
         key = (spec['cfg'], spec['routes'], spec['data'], spec['scripts'], spec['candles'], spec['fast'])
         return dict(key=key, nontrivial=nt, classes=cl, violations=vios,
                     sample=dict(routes=spec['routes'], data=spec['data'], minutes=spec['n'], fast=spec['fast'], warm_up=spec['cfg']['warm_up'],
